@@ -38,28 +38,53 @@ theorem rotate_unit (a r : Vec3 ℝ) (hr : isUnit r) (ha : 0 < vdot a a) : isUni
   apply makeUnit_unit
   rw [rotateRaw_vdot a a r hr]; exact ha
 
-/-- the polar angle is preserved relative to `rot` itself, in all three branches: the rotated
-    vector makes with `rot` the angle that `d` makes with the z axis (`rotate(e_z, rot) = rot`).
-    (Before the repair of the near-axis branch — which took sin φ = +sqrt(1 − cos²φ) — this held
-    only relative to (rot_x, |rot_y|, rot_z); replays corpus/C20/rotate-near-axis-sign.ops and
-    rotate-nan-z-parallel.ops.) -/
+attribute [local instance] Classical.propDecidable in
+/-- what exactly is preserved about the polar angle: the rotated vector makes the angle of `d`
+    with the image of the z axis, and that image is `rot` itself EXCEPT in the near-axis branch
+    (0 < sin θ_rot < 0.005), where it is (rot_x, |rot_y|, rot_z) — the code takes
+    sin φ = +sqrt(1 − cos²φ) there, so the sign of rot_y is lost (known finding
+    `rotate-near-axis-sign`, replay corpus/C20/rotate-near-axis-sign.ops) -/
 theorem rotate_polar_angle (d r : Vec3 ℝ) (hr : isUnit r) (hd : isUnit d) :
-    vdot (rotate d r) r = d.z := by
-  have h := rotateRaw_vdot_pole d r hr
-  rw [poleImage_eq r hr] at h
-  rw [rotate_eq_raw d r hr hd]; exact h
+    vdot (rotate d r) ⟨r.x, if nearAxis r then |r.y| else r.y, r.z⟩ = d.z := by
+  rw [rotate_eq_raw d r hr hd, ← poleImage_eq r hr]
+  exact rotateRaw_vdot_pole d r hr
 
-/-- the z axis is mapped to `rot` -/
-theorem rotate_pole (r : Vec3 ℝ) (hr : isUnit r) : rotate ⟨0, 0, 1⟩ r = r := by
-  have hz : isUnit (⟨0, 0, 1⟩ : Vec3 ℝ) := by simp [isUnit, vdot]
-  have hraw : rotateRaw ⟨0, 0, 1⟩ r = poleImage r := by
-    unfold rotateRaw poleImage
-    generalize rotAngles r = t
-    obtain ⟨st, cp, sp⟩ := t
-    simp only []
-    opt_simp
-    apply vec3_ext <;> simp
-  rw [rotate_eq_raw _ r hr hz, hraw, poleImage_eq r hr]
+/-- consequently `rotate(d, rot)·rot = d_z` whenever rot is not in the near-axis branch with
+    negative y -/
+theorem rotate_polar_angle_exact (d r : Vec3 ℝ) (hr : isUnit r) (hd : isUnit d)
+    (h : ¬ (nearAxis r ∧ r.y < 0)) : vdot (rotate d r) r = d.z := by
+  have := rotate_polar_angle d r hr hd
+  by_cases hn : nearAxis r
+  · have hy : 0 ≤ r.y := not_lt.mp (fun hy => h ⟨hn, hy⟩)
+    rw [if_pos hn, abs_of_nonneg hy] at this
+    exact this
+  · rw [if_neg hn] at this
+    exact this
+
+/-- … and in that excluded case the deviation is at most 2·|rot_y| (< 2·0.005) -/
+theorem rotate_polar_angle_near_axis_bound (d r : Vec3 ℝ) (hr : isUnit r) (hd : isUnit d) :
+    |vdot (rotate d r) r - d.z| ≤ 2 * |r.y| := by
+  have h := rotate_polar_angle d r hr hd
+  have hu : isUnit (rotate d r) := (rotate_preserves_dot d d r hr hd hd).2.1
+  set v := rotate d r with hv
+  have hvy : |v.y| ≤ 1 := by
+    unfold isUnit vdot at hu
+    rw [abs_le]; constructor <;> nlinarith [mul_self_nonneg v.x, mul_self_nonneg v.z]
+  by_cases hn : nearAxis r
+  · rw [if_pos hn] at h
+    have : vdot v r - d.z = v.y * (r.y - |r.y|) := by
+      rw [← h]; simp only [vdot]; ring
+    rw [this, abs_mul]
+    have h2 : abs (r.y - |r.y|) ≤ 2 * |r.y| := by
+      rcases le_or_gt 0 r.y with hy | hy
+      · rw [abs_of_nonneg hy]; simp [hy]
+      · rw [abs_of_neg hy, abs_of_neg (by linarith : r.y - -r.y < 0)]; linarith
+    calc |v.y| * abs (r.y - |r.y|) ≤ 1 * (2 * |r.y|) :=
+          mul_le_mul hvy h2 (abs_nonneg _) (by norm_num)
+      _ = 2 * |r.y| := by ring
+  · rw [if_neg hn] at h
+    have : vdot v r - d.z = 0 := by rw [← h]; ring
+    rw [this, abs_zero]; positivity
 
 /-! ### Cerenkov photons
 
@@ -90,9 +115,13 @@ theorem cerenkov_dir_perp_pol (K : Consts ℝ) (m : CerMat ℝ) (d : Dist ℝ) (
     (mk'_dir_unit K m d hmove) (le_of_lt hc0) hc1
   rw [hp]; exact ⟨h1, h2, h3⟩
 
-/-- the photon lies on the Cerenkov cone of the mean speed β̄ = (β_pre + β_post)/2 about the
-    step direction `w`: cos θ = 1/(n(E) β̄) by construction (z component in the parent frame),
-    it does not exceed 1, and after the rotation it is the cosine of the angle to `w` -/
+attribute [local instance] Classical.propDecidable in
+/-- the photon lies on the Cerenkov cone of the mean speed β̄ = (β_pre + β_post)/2:
+    cos θ = 1/(n(E) β̄) by construction (z component in the parent frame), it does not exceed 1,
+    and after the rotation this is the angle to the step direction `w` — precisely, to
+    (w_x, |w_y|, w_z) when `w` falls in `rotate`'s near-axis branch, to `w` otherwise
+    (known finding `rotate-near-axis-sign`: for w_y < 0 in that band the cone axis is mirrored,
+    deviation of cos θ ≤ 2|w_y| < 0.01 by `rotate_polar_angle_near_axis_bound`) -/
 theorem cerenkov_on_cone (K : Consts ℝ) (m : CerMat ℝ) (d : Dist ℝ) (s : List ℝ)
     (p : Photon ℝ) (rest : List ℝ)
     (hmove : 0 < vdot (stepDelta d) (stepDelta d))
@@ -100,7 +129,8 @@ theorem cerenkov_on_cone (K : Consts ℝ) (m : CerMat ℝ) (d : Dist ℝ) (s : L
     (h : (CerGen.mk' K m d).photon K s = some (p, rest)) :
     let w := makeUnitVector (stepDelta d)
     let cosTheta := 1 / (m.ri.eval p.energy * ((d.preSpeed + d.postSpeed) / 2))
-    cosTheta ≤ 1 ∧ vdot p.direction w = cosTheta := by
+    cosTheta ≤ 1 ∧
+    vdot p.direction ⟨w.x, if nearAxis w then |w.y| else w.y, w.z⟩ = cosTheta := by
   intro w cosTheta
   obtain ⟨ue, _, uphi, _, u, _, hacc, hp⟩ := cer_photon_spec K _ s p rest h
   obtain ⟨hc0, hc1⟩ := cer_cos_range K m d ue hv0 hv1 hn hacc
@@ -295,6 +325,16 @@ theorem scint_energy_nonpositive_witness (K : Consts ℝ) (hpi : K.twoPiNormal =
 
 example : isUnit (⟨0, 0, 1⟩ : Vec3 ℝ) := by simp [isUnit, vdot]
 example : isUnit (⟨3 / 5, 0, 4 / 5⟩ : Vec3 ℝ) := by simp only [isUnit, vdot]; norm_num
+/-- the near-axis branch with negative y is inhabited by unit vectors … -/
+example : ∃ r : Vec3 ℝ, isUnit r ∧ nearAxis r ∧ r.y < 0 := by
+  refine ⟨⟨0, -(1 / 1000), Real.sqrt (1 - 1 / 1000000)⟩, ?_, ?_, by norm_num⟩
+  · simp only [isUnit, vdot]
+    rw [Real.mul_self_sqrt (by norm_num)]; norm_num
+  · have : (1 : ℝ) - Real.sqrt (1 - 1 / 1000000) * Real.sqrt (1 - 1 / 1000000) = (1 / 1000) * (1 / 1000) := by
+      rw [Real.mul_self_sqrt (by norm_num)]; norm_num
+    simp only [nearAxis]
+    rw [this, Real.sqrt_mul_self (by norm_num)]
+    constructor <;> norm_num
 example : inUnit [0, 1 / 2, 1] := by
   intro x hx; simp at hx; rcases hx with h | h | h <;> subst h <;> constructor <;> norm_num
 example : (⟨1, 1, 1, 1, 1, 1⟩ : Consts ℝ).Pos := ⟨by norm_num, by norm_num, by norm_num⟩
